@@ -131,6 +131,7 @@ class Agent:
         self.forms = None
         self.budget = None
         self.nreq = 0
+        self.ndisco = 0
         self.nbulk = 0
         self.stats = {k: 0 for k in USM_STATS}
         self.events = events if events is not None else []
@@ -138,6 +139,7 @@ class Agent:
         self.on_request = None
         self.on_reply = None
         self.on_discovery = None
+        self.disco_delta = 0
         self.v3_response_hook = None
 
     # ---------------- clock
@@ -275,9 +277,10 @@ class Agent:
             req["verdict"] = "unknownEngineIDs"
             if flags & 2:       # cannot even read the PDU
                 return self.report(req, "unknownEngineIDs", None, req["msgid"], 0)
+            self.ndisco += 1
             if self.on_discovery:
                 self.on_discovery(req)
-            return self.report(req, "unknownEngineIDs", None, req["msgid"], req.get("reqid", 0))
+            return self.report(req, "unknownEngineIDs", None, req["msgid"] + self.disco_delta, req.get("reqid", 0))
         u = self.users.get(req["user"])
         if u is None:
             self.stats["unknownUserNames"] += 1
